@@ -313,6 +313,65 @@ TEMPLATES["Truncated.onesided"] = (lambda P: tmod.TruncatedGaussianMeasure(measu
 
 
 # ---------------------------------------------------------------------------
+# vmap over the data axis vs the SAME program run eagerly on the whole batch (row-wise programs with a known layout)
+def _condR2(P):
+    return conditional.ConditionalGaussianPDF(M=jnp.stack([P["M1"], P["M1"].T * 0.5 + 0.2]), b=jnp.stack([P["b1"], P["v2"]]), Sigma=jnp.stack([spd(P["B2"]), 2.0 * spd(P["B0"])]))
+
+
+def _measR2(P):
+    return ROOTS["GaussianMeasure.R2"][1](P)
+
+
+def _pdfR2(P):
+    return ROOTS["GaussianPDF.R2"][1](P)
+
+
+_X0 = J(al.points(2, D, salt=7))
+
+# name -> (f(P, X, Y) on the whole batch, rearrange(full, N) -> [N, ...] matching vmap of f on single rows)
+VBATCH = {
+    "measureR2.evaluate_ln": (lambda P, X, Y: _measR2(P).evaluate_ln(X), lambda a, N: a.T),
+    "pdfR2.mulC.evaluate_ln": (lambda P, X, Y: _pdfR2(P).multiply(_fac("C", P), update_full=True).evaluate_ln(X), lambda a, N: a.T),
+    "condR2.cx.evaluate_ln": (lambda P, X, Y: _condR2(P).condition_on_x(X).evaluate_ln(_X0), lambda a, N: a.reshape(2, N, -1).transpose(1, 0, 2)),
+    "condR2.cx.entropy": (lambda P, X, Y: _condR2(P).condition_on_x(X).entropy(), lambda a, N: a.reshape(2, N).T),
+    "condR2.cx.log_integral_of_product": (lambda P, X, Y: _condR2(P).condition_on_x(X).multiply(_fac("1", P), update_full=True).log_integral(), lambda a, N: a.reshape(2, N).T),
+    "posteriorR2.cx.evaluate_ln": (lambda P, X, Y: ROOTS["ConditionalGaussianPDF"][1](P).affine_conditional_transformation(_pdfR2(P)).condition_on_x(Y).evaluate_ln(_X0), lambda a, N: a.reshape(2, N, -1).transpose(1, 0, 2)),
+    "posteriorR2.cx.entropy_kl": (lambda P, X, Y: (lambda q: q.entropy() + q.kl_divergence(_prior(P)))(ROOTS["ConditionalGaussianPDF"][1](P).affine_conditional_transformation(_pdfR2(P)).condition_on_x(Y)), lambda a, N: a.reshape(2, N).T),
+    "cond.set_y.evaluate_ln": (lambda P, X, Y: ROOTS["ConditionalGaussianPDF"][1](P).set_y(Y).evaluate_ln(_X0), lambda a, N: a),
+    "cond.set_y.into_prior.log_integral": (lambda P, X, Y: _prior(P).multiply(ROOTS["ConditionalGaussianPDF"][1](P).set_y(Y), update_full=True).log_integral(), lambda a, N: a),
+    "identity.cx.evaluate_ln": (lambda P, X, Y: ROOTS["ConditionalIdentityGaussianPDF"][1](P).condition_on_x(X).evaluate_ln(_X0), lambda a, N: a),
+    "condDiagR2.joint.cx": (lambda P, X, Y: _condR2(P).affine_joint_transformation(_prior(P)).condition_on(np.array([2, 3])).condition_on_x(Y).evaluate_ln(_X0), lambda a, N: a.reshape(2, N, -1).transpose(1, 0, 2)),
+    "LRBF.cx.evaluate_ln": (lambda P, X, Y: _rbf(P).condition_on_x(X).evaluate_ln(_X0), lambda a, N: a),
+    "LSEM.cx.evaluate_ln": (lambda P, X, Y: _sem(P).condition_on_x(X).evaluate_ln(_X0), lambda a, N: a),
+    "HeteroExp.cx.evaluate_ln": (lambda P, X, Y: _het("Exp")(P).condition_on_x(X).evaluate_ln(_X0), lambda a, N: a),
+    "HeteroReLU.cx.entropy": (lambda P, X, Y: _het("ReLU")(P).condition_on_x(X).entropy(), lambda a, N: a),
+}
+
+
+def run_vbatch(shard, ctx):
+    P = make_params(shard["vi"], shard["seed"])
+    X, Y = J(DATA["x"]), J(DATA["y"])
+    N = X.shape[0]
+    for name, (f, rearr) in VBATCH.items():
+        if not ctx.case(dict(vbatch=name)):
+            continue
+        facts = dict(template=name)
+        ctx.count("states")
+        ctx.count("transitions")
+        with ctx.guard("vbatch.eager", facts) as g:
+            full = np.asarray(f(P, X, Y))
+        if not g.ok:
+            continue
+        ctx.count("traces_validated_against_impl")
+        with ctx.guard("vbatch.jit", facts) as g:
+            ctx.close("vbatch.jit", np.asarray(jax.jit(lambda P_: f(P_, X, Y))(P)), full, facts=facts, symptom="jit_differs")
+        with ctx.guard("vbatch.vmap", facts) as g:
+            vm = np.asarray(jax.vmap(lambda xr, yr: f(P, xr[None], yr[None]))(X, Y))
+            ref = np.asarray(rearr(full, N))
+            ctx.close("vbatch.vmap_vs_whole_batch", vm.reshape(ref.shape), ref, facts=facts, symptom="vmap_differs")
+    ctx.sample(dict(shard=shard["id"], templates=sorted(VBATCH)))
+
+
 def shards(tier, seed):
     out = []
     progs = enumerate_programs(tier)
@@ -325,6 +384,8 @@ def shards(tier, seed):
             out.append(dict(id="C18/template/v%d/%s" % (vi, t), part="template", vi=vi, name=t, cost=30 if t.endswith("bound") else 4, facts=dict(template=t)))
     for cls in CROSS_CLASSES:
         out.append(dict(id="C18/crossing/%s" % cls, part="crossing", cls=cls, cost=3, facts=dict(cls=cls)))
+    for vi in sorted(set(BOUNDS[tier]["vi"]) | {100}):
+        out.append(dict(id="C18/vbatch/v%d" % vi, part="vbatch", vi=vi, cost=5, facts={}))
     return out
 
 
@@ -335,6 +396,8 @@ def finalize(results, tier, seed):
 def run_shard(shard, ctx):
     if shard["part"] == "crossing":
         return run_crossing(shard, ctx)
+    if shard["part"] == "vbatch":
+        return run_vbatch(shard, ctx)
     P = make_params(shard["vi"], shard["seed"])
     if shard["part"] == "template":
         f, data, gtol = TEMPLATES[shard["name"]]
